@@ -6,6 +6,7 @@ From PV Require Import Base.Bytes Base.Lit Base.Json Base.Utf8 Model.Hexdump Spe
 From PV Require Import Extract.ApiIo.
 From PV Require Import Extract.ApiPel.
 From PV Require Extract.ApiHw.
+From PV Require Extract.ApiTrace.
 Import ListNotations.
 Open Scope N_scope.
 
@@ -34,4 +35,5 @@ Definition run (cmd : text) (args : list bytes) : text :=
     render (jstrs (render2 (if Nat.eqb (nat_arg (arg 0 args)) 0 then hexdigU else hexdigL) (arg 1 args)))
   else match run_io cmd args with Some t => t | None =>
        match run_pel cmd args with Some t => t | None =>
-       match ApiHw.run_hw cmd args with Some t => t | None => L """unknown command""" end end end.
+       match ApiHw.run_hw cmd args with Some t => t | None =>
+       match ApiTrace.run_trace cmd args with Some t => t | None => L """unknown command""" end end end end.
